@@ -302,7 +302,15 @@ class Index:
                 continue
             if not f.startswith('<'):
                 # `Type::method` names an inherent method of Type; `module::name` / `name` names a free function
-                owner = re.sub(r'<.*$', '', prefix.split('::')[-1]) if prefix else ''
+                psegs = last_seg(prefix) if prefix else ['']
+                lastp = psegs[-1]
+                if lastp.startswith('<') and not lastp.startswith('<impl ') and len(psegs) >= 2:
+                    lastp = psegs[-2]          # Type::<Args>::method
+                mo_impl = re.match(r'^<impl (.*)>$', lastp)
+                if mo_impl:
+                    owner = re.sub(r'<.*$', '', mo_impl.group(1).split('::')[-1].lstrip('&'))     # `module::<impl Type>::method`
+                else:
+                    owner = re.sub(r'<.*$', '', lastp)
                 if owner[:1].isupper():
                     if d.kind != 'impl' or d.self_ty is None or parse_ty(d.self_ty, d.tyvars)[1:2] != (owner,):
                         continue
